@@ -205,7 +205,9 @@ def rel_numeric_vs_analytic(c, rng, tier, N):
             p.laminaprops = [tuple(x) for x in lam['laminaprops']]
             p.offset = lam['offset']
             p.force_orthotropic_laminate = bool(lam.get('force_ortho'))
-    Kn = p.calc_k0(silent=True, c=np.zeros(size), nx=nx, ny=ny).toarray()
+    okw, okind = gen.order_kwargs(rng, p, nx, ny)
+    c.tag('orders:' + okind)
+    Kn = p.calc_k0(silent=True, c=np.zeros(size), **okw).toarray()
     c.judge('numerically integrated k0 at the undeformed state equals the analytic k0', rel(K, Kn, floor=1e-4), 1e-9)
     Kn2 = p.calc_k0(silent=True, c=np.zeros(size), nx=nx + 5, ny=ny + 3, NLgeom=True).toarray()
     c.judge('numerical k0 independent of the (exact) Gauss order and of NLgeom at c=0', rel(Kn, Kn2, floor=1e-4), 1e-9)
